@@ -124,6 +124,10 @@ func (f *Frame) execCallCommon(ins ssa.Instruction, c *ssa.CallCommon, st *State
 			}
 		}
 	}
+	if h := u.splicedHelper(c, f.fn); h != nil && !f.spliced && u.inlineDepth < maxInlineDepth {
+		u.AssumedUse["function "+canonFn(h)+" is new relative to the committed baseline and has no contract: verified as part of its caller "+canonFn(f.fn)] = true
+		return f.inlineSpliced(h, ins, args, st)
+	}
 	if benign(name) {
 		return resultVal(u, st, sig, "r_"+sanitize(name))
 	}
@@ -192,6 +196,51 @@ func (f *Frame) inline(target *ssa.Function, env []Val, args []Val, st *State) V
 	st.defers = nil
 	rst, rets := nf.run(st)
 	// copy the merged state back into st
+	*st = *rst
+	st.defers = saved
+	switch len(rets) {
+	case 0:
+		return Val{}
+	case 1:
+		return rets[0]
+	}
+	return Val{Tup: rets}
+}
+
+// inlineSpliced runs the body of a spliced helper (see Frame.spliced) in place of the call.
+func (f *Frame) inlineSpliced(target *ssa.Function, at ssa.Instruction, args []Val, st *State) Val {
+	u := f.u
+	u.inlineDepth++
+	defer func() { u.inlineDepth-- }()
+	nf := u.newFrame(target, f.prefix, false)
+	nf.spliced = true
+	nf.parent = f
+	nf.parentBlock = at.Block()
+	for i, ins := range at.Block().Instrs {
+		if ins == at {
+			nf.parentIdx = i
+		}
+	}
+	// loops of the helper carry no specification of their own (loop ordinals belong to the caller)
+	for _, li := range nf.loops {
+		li.spec = nil
+	}
+	// call anchors: the caller's numbering
+	for ins := range nf.callOrd {
+		if name, ok := f.callOrd[ins]; ok {
+			nf.callOrd[ins] = name
+		}
+	}
+	for i, p := range target.Params {
+		if i < len(args) {
+			v := args[i]
+			v.Ty = p.Type()
+			nf.vals[p] = v
+		}
+	}
+	saved := st.defers
+	st.defers = nil
+	rst, rets := nf.run(st)
 	*st = *rst
 	st.defers = saved
 	switch len(rets) {
